@@ -13,7 +13,7 @@
 (*           orole[i] = "model" | "offset" | "scale": where the i-th       *)
 (*           fitted parameter lives (the forward model, or the OBSERVATION *)
 (*           as an additive offset [ppm] / multiplicative scale of its     *)
-(*           spectrum; the observation's come after the model's);          *)
+(*           spectrum);                                                    *)
 (*           d0[b] = the observation's base spectrum in integer units of   *)
 (*           1e-7 (<<>> for an observation without parameters), off0 / sc0 *)
 (*           = initial offset / scale (scaled by S)                        *)
@@ -61,12 +61,9 @@ DataOk(s, e) ==
     \/ /\ s.d0 # <<>> /\ Len(e.dat8) = Len(s.d0)
        /\ \A b \in 1..Len(s.d0) :          \* dat8 / 8 = d0 * (xs / S) + 10 * (xo / S)
              e.dat8[b] * (e.S \div 8) = s.d0[b] * ObsValue(s, e, "scale", s.sc0) + 10 * ObsValue(s, e, "offset", s.off0)
-\* the observation's fitted parameters come after the model's
-ObsLast(s) == \A i \in 1..s.nfit, j \in 1..s.nfit : (i < j /\ s.orole[i] # "model") => s.orole[j] # "model"
-
 LikeOk(s, e) ==
     LET n == Len(s.proj) IN
-    /\ ObsLast(s) /\ DataOk(s, e)
+    /\ DataOk(s, e)
     /\ Len(e.x) = s.nfit /\ Len(e.before) = n /\ Len(e.after) = n
     /\ \A j \in 1..n : Abs(e.before[j] - s.proj[j]) <= 1                 \* nobody wrote between the calls
     /\ \A i \in 1..s.nfit : Abs(e.after[i] - e.x[i]) <= 1                  \* WrittenIsPriorOfX, OrderIsFitOrder
